@@ -484,7 +484,27 @@ func ruleSplitReadsBeforeWrites(c *Ctx, r *R) {
 		n++
 		late := false
 		var at token.Pos
+		// a read of one array of the view (all.Child(i)) is disturbed only by writes to that array of the left half
+		// (x.children[…]): keys, values and children are three separate arrays
+		arrOfRead := ""
+		if call, isCall := rd.(*ssa.Call); isCall {
+			if cal := staticCallee(&call.Call); cal != nil && cal.Signature.Recv() != nil && isNamedTypeDeep(cal.Signature.Recv().Type(), treeRel, "amalgam1") {
+				switch {
+				case strings.Contains(fname(cal), "Key"):
+					arrOfRead = "keys"
+				case strings.Contains(fname(cal), "Value"):
+					arrOfRead = "values"
+				case strings.Contains(fname(cal), "Child"):
+					arrOfRead = "children"
+				}
+			}
+		}
 		for _, w := range leftWrites {
+			if st, isSt := w.(*ssa.Store); isSt && arrOfRead != "" {
+				if _, arr, ok := nodeArray(st.Addr); ok && arr != arrOfRead {
+					continue
+				}
+			}
 			if w.Block() == rd.Block() {
 				// straight-line code: the write comes first; or the block is a loop body that runs again without going
 				// back through the view's construction
@@ -1684,6 +1704,43 @@ func ruleSleepReturns(c *Ctx, r *R) {
 							}
 						}
 					}
+				}
+				// one `return nil` at the bottom that both ways share (`if d > 0 { … select { … case <-t.C: } }; return nil`): every
+				// path to it has taken the d <= 0 edge or the timer arm (typestate over the edges)
+				if !good && vr.blk == ret.Block() {
+					pfn := &PF{N: 2}
+					pfn.Edge = func(_ *ssa.Function, g guard, q int) (StateSet, bool) {
+						cf, ok := g.asCmp()
+						if !ok {
+							return 0, false
+						}
+						if cf.x == ssa.Value(dP) && ((cf.op == token.LEQ && isConstInt(cf.y, 0)) || (cf.op == token.LSS && isConstInt(cf.y, 1))) {
+							return ss(1), true
+						}
+						if ex, ok := cf.x.(*ssa.Extract); ok && ex.Index == 0 && cf.op == token.EQL {
+							if sel, ok := ex.Tuple.(*ssa.Select); ok {
+								if k, isK := cf.y.(*ssa.Const); isK && k.Value != nil {
+									idx := int(k.Int64())
+									if idx >= 0 && idx < len(sel.States) {
+										if kind, _ := classifyChan(sel.States[idx].Chan); kind == "timer" {
+											return ss(1), true
+										}
+									}
+								}
+							}
+						}
+						return 0, false
+					}
+					all, seen := true, false
+					for _, e := range pfn.Exits(fn, ss(0)) {
+						if e.Ret == ret {
+							seen = true
+							if e.States != ss(1) {
+								all = false
+							}
+						}
+					}
+					good = seen && all
 				}
 				why = "nil is returned on a path on which neither d <= 0 holds nor the timer for d has fired: the caller is told the sleep completed before d has elapsed"
 			default:
